@@ -33,19 +33,46 @@ Shapes(c) == IF TIER = "quick"
              ELSE { << <<c>> >>, << <<l, c>> >>, << <<c, l>> >>, << <<c>>, <<l>> >>, << <<l>>, <<c>> >>, << <<l, c, l>> >>,
                     << <<c>>, <<c>> >>, << <<c, c>> >>, << <<l, c>>, <<l>> >> }
 
-T(fam, name, files, sess) == [fam |-> fam, name |-> name, files |-> files, sess |-> sess]
+No8 == [has |-> 0, v |-> <<>>]
+NoDup == [kind |-> "none", v |-> <<>>, first |-> 0]
+TX(fam, name, files, sess, n8, f8, dup, extra) ==
+    [fam |-> fam, name |-> name, files |-> files, sess |-> sess, n8 |-> n8, f8 |-> f8, dup |-> dup, extra |-> extra]
+T(fam, name, files, sess) == TX(fam, name, files, sess, No8, [i \in 1 .. Len(files) |-> No8], NoDup, "none")
 FamA == {T("A", c, <<>>, 1) : c \in Comps}
 FamB == UNION {{T("B", n, sh, IF sh = << <<c>> >> /\ n = l THEN 1 ELSE 0) : sh \in Shapes(c)} : c \in Comps, n \in Names}
 DangerT == DangerQ \cup {<<"D", "D", "D">>, <<"P", "D", "D">>, <<"D", "D", "B">>, <<"D", "D", "Z">>, <<"D", "D", "R">>, <<"P">>}
 FamC == LET D == IF TIER = "quick" THEN DangerQ ELSE DangerT
         IN {T("C", n, << <<a, b>>, <<l>> >>, IF a = l /\ b = l THEN 1 ELSE 0) : n \in D, a \in D, b \in D}
-Torrents == FamA \cup FamB \cup FamC
+
+\* U: ALTERNATIVE SOURCES - "name.utf-8" and per-file "path.utf-8" with values independent of the plain keys
+\* (absent, present-but-empty, harmless, dangerous); the driver runs every case with the utf8 flag on and off.
+dd == <<"D", "D">>
+N8 == {No8} \cup {[has |-> 1, v |-> x] : x \in {<<>>, <<"D">>, dd, <<"D", "D", "P">>, <<"D", "D", "S">>, l} \cup
+                                               (IF TIER = "quick" THEN {} ELSE {<<"P", "D", "D">>, <<"U">>, <<"D", "D", "U">>, <<"R">>})}
+P8v == {<<>>, << <<>> >>, <<l>>, <<dd>>, <<dd, dd, l>>, <<l, dd>>, << <<"D">> >>, << <<"D", "D", "P">> >>, <<l, <<"D", "D", "S">>, dd>>}
+       \cup (IF TIER = "quick" THEN {} ELSE {<<dd, l>>, << <<"P", "D", "D">>, l>>, << <<>>, dd>>, << <<"D", "D", "U">> >>, <<l, l>>})
+P8 == {No8} \cup {[has |-> 1, v |-> x] : x \in P8v}
+PlainP == {<<l>>, <<dd>>, <<l, dd>>}
+FamU == {TX("U", n, <<>>, 1, n8, <<>>, NoDup, "none") : n \in {l, dd, <<>>}, n8 \in N8}
+        \cup {TX("U", n, <<p, <<l>>>>, IF p = <<l>> THEN 1 ELSE 0, n8, <<p8, No8>>, NoDup, "none") :
+                 n \in {l, dd}, n8 \in {No8, [has |-> 1, v |-> dd], [has |-> 1, v |-> l]}, p \in PlainP, p8 \in P8}
+        \cup {TX("U", l, <<<<l>>, <<l, l>>>>, 1, No8, <<p8, q8>>, NoDup, "none") : p8 \in P8, q8 \in P8}
+\* V: other places where two sources exist for one value: duplicate dictionary keys (the alternative value v comes first
+\* or last), "length" next to "files", the BitComet padding-name convention next to / instead of attr "p"
+DupV == {<<>>, <<"D">>, dd, <<"D", "D", "P">>, <<"D", "D", "S">>, l}
+FamV == {TX("V", l, <<<<l>>, <<l, l>>>>, 1, No8, <<No8, No8>>, [kind |-> k, v |-> v, first |-> f], x) :
+            k \in {"name", "name8", "path", "path8", "files"}, v \in DupV, f \in {0, 1}, x \in {"none", "both"}}
+        \cup {TX("V", n, <<<<a, b>>, <<l>>>>, 0, No8, <<No8, No8>>, NoDup, x) :
+                 n \in {l, dd}, a \in DupV, b \in {l, dd}, x \in {"bcpad", "bcpad+attr", "both"}}
+Torrents == FamA \cup FamB \cup FamC \cup FamU \cup FamV
 
 TarEntries == IF TIER = "quick" THEN UNION {[1 .. k -> DangerQ] : k \in 1 .. 3}
               ELSE UNION {[1 .. k -> Danger] : k \in 1 .. 2} \cup [1 .. 3 -> DangerQ]
 
 B01(b) == IF b THEN 1 ELSE 0
-Pred(t) == [acc_cur |-> B01(Accepts(t, "cur")), acc_fix |-> B01(Accepts(t, "fix")),
+\* predictions for the flags of metainfo.New (utf8 on): the model is applied to the EFFECTIVE torrent
+Pred(at) == LET t == Effective(at, TRUE) IN
+           [acc_cur |-> B01(Accepts(t, "cur")), acc_fix |-> B01(Accepts(t, "fix")),
             conf |-> B01(ModelConfined(t, 1)), rm_cur |-> B01(ModelRemoveOK(t, 0, "cur"))]
 TarPred(e) == B01(TarAccepts(RootOf(UM), AsPath(e)))
 
